@@ -76,6 +76,8 @@ def ofAVal : AVal → Val
   | .c cls => .cls (match cls with
       | .SignalingNaN => 0 | .QuietNaN => 1 | .NegativeInfinity => 2 | .NegativeNormal => 3 | .NegativeSubnormal => 4
       | .NegativeZero => 5 | .PositiveZero => 6 | .PositiveSubnormal => 7 | .PositiveNormal => 8 | .PositiveInfinity => 9)
+  | .o r => .o r
+  | .h bs => .h (bs.map UInt8.toNat)
 
 def judgeApi (modeTok : String) (o : Obs) : String :=
   let mode := if modeTok == "-" || modeTok == "N" then Dec.Gen.Api.defaultMode else HkGen.rmode o.mode
